@@ -44,6 +44,10 @@ partial def toEx : SX → Option Ex
   | .list [.atom "splice", m] => do some (.escape (← toEx m))
   | .list (.atom "mcall" :: f :: ms) => do some (.macroExpand (← toEx f) (← ms.mapM toEx))
   | .list [.atom "lift", m] => do some (.app (.var "lift_f") [← toEx m])
+  -- macro pipe: `(pipem arg fn)`, macro lambda `(mlam (a) (quote body))` = `|a| `{ body }`, placeholder `(ph)`
+  | .list [.atom "pipem", a, f] => do some (.pipeM (← toEx a) (← toEx f))
+  | .list [.atom "mlam", .list xs, q] => do some (.lam (← atoms xs) (← toEx q))
+  | .list [.atom "ph"] => some .placeholder
   -- a statement chain in expression position is rendered `({ … })`
   | s@(.list (.atom "let" :: _)) => do some (.block (← toStmts s))
   | s@(.list (.atom "lett" :: _)) => do some (.block (← toStmts s))
@@ -76,6 +80,7 @@ partial def mentions (x : String) : Ex → Bool
   | .bracket e => mentions x e
   | .escape e => mentions x e
   | .macroExpand f args => mentions x f || args.any (mentions x)
+  | .pipeM a f => mentions x a || mentions x f
   | _ => false
 
 /-- one top-level item: `(fn name (params) shape body)`, `(g x e)`, or a macro-stage function `(m (fn …))` -/
@@ -160,6 +165,8 @@ partial def canon : Ex → String
   | .bracket e => s!"(bracket {canon e})"
   | .escape e => s!"(escape {canon e})"
   | .macroExpand f args => "(" ++ sp ("macro" :: canon f :: args.map canon) ++ ")"
+  | .pipeM a f => s!"(pipem {canon a} {canon f})"
+  | .placeholder => "placeholder"
 
 /-- the whole model pipeline on one program: expanded tree (canonical text) and the outputs of its evaluation -/
 def runStaged (p : SProg) (times : Nat) (inputs : List (List UInt64)) : String × String × String :=
